@@ -136,11 +136,12 @@ sha2 = {{ path = "{VERIF}/models/sha2" }}
 
 class Harness:
     def __init__(self, name, prop, *, timeout=600, mem_gb=12, unwindset=None, best_effort=False, note='', bounds='',
-                 expect_covers=True, replay=None, tier='quick', extra_args=None, group=None):
+                 expect_covers=True, replay=None, tier='quick', extra_args=None, group=None, loop_rules=None):
         self.name = name; self.prop = prop; self.timeout = timeout; self.mem_gb = mem_gb
         self.unwindset = unwindset or {}; self.best_effort = best_effort; self.note = note; self.bounds = bounds
         self.expect_covers = expect_covers; self.replay = replay; self.tier = tier
         self.extra_args = extra_args or []; self.group = group
+        self.loop_rules = loop_rules or []     # [(regex on the loop's function name, unwind bound)] resolved to loop ids via cbmc --show-loops
 
 
 class HarnessResult:
@@ -161,7 +162,7 @@ class HarnessResult:
                 'best_effort': self.h.best_effort, 'detail': self.detail}
 
 
-CHECK_RE = re.compile(r'Check \d+: (\S+)\n\s+- Status: (\w+)\n\s+- Description: "(.*?)"\n\s+- Location: (.*?)\n', re.S)
+CHECK_RE = re.compile(r'Check \d+: ([^\n]+)\n\s+- Status: (\w+)\n\s+- Description: "(.*?)"\n\s+- Location: (.*?)\n', re.S)
 
 
 def parse_kani(out, res):
@@ -219,6 +220,8 @@ def kani_cmd(h, target_dir, playback=False):
     if playback:
         cmd += ['-Z', 'concrete-playback', '--concrete-playback=print']
     cb = []
+    if h.unwindset and '-Z' not in ' '.join(cmd[4:]):
+        cmd += ['-Z', 'unstable-options']
     if h.unwindset:
         cb += ['--unwindset', ','.join(f'{k}:{v}' for k, v in h.unwindset.items())]
     if cb:
@@ -226,10 +229,39 @@ def kani_cmd(h, target_dir, playback=False):
     return cmd
 
 
+def resolve_loop_rules(scr, h, tdir):
+    """per-loop unwind bounds: build the harness, list its loops with cbmc --show-loops, apply the rules"""
+    cmd = ['cargo', 'kani', '-Z', 'stubbing', '--target-dir', tdir, '--harness', h.name, '--exact', '--only-codegen']
+    rc, out, dt = sh(cmd, cwd=scr.kani_repo, timeout=900)
+    short = h.name.split('::')[-1]
+    import glob
+    cands = glob.glob(os.path.join(tdir, 'kani', '*', 'debug', 'build', 'fips204', '*', 'out', f'*{len(short)}{short}.out'))
+    if rc != 0 or not cands:
+        raise BuildError(f'codegen for loop listing failed ({h.name}): ' + out[-1500:])
+    gb = max(cands, key=os.path.getmtime)
+    rc, out, dt = sh(['cbmc', '--show-loops', gb], timeout=600)
+    loops = re.findall(r'^Loop (\S+):\n\s+file (\S+) line (\d+) .*? function (.*)$', out, re.M)
+    us = {}
+    for lid, file, line, fn in loops:
+        for rx, bound in h.loop_rules:
+            if re.search(rx, fn):
+                us[lid] = bound
+    if not us:
+        raise BuildError(f'no loop matched the unwind rules of {h.name} (anchor problem)')
+    return us
+
+
 def run_one_kani(scr, h, slot):
     res = HarnessResult(h)
     tdir = scr.target_dir(f'k{slot}')
     t0 = time.time()
+    if h.loop_rules and not h.unwindset:
+        try:
+            h.unwindset = resolve_loop_rules(scr, h, tdir)
+        except BuildError as e:
+            res.status = 'error'; res.detail = str(e)[:400]; res.wall = time.time() - t0
+            log(f'  [E1] {h.name}: error — {res.detail[:200]}')
+            return res
     rc, out, dt = sh(kani_cmd(h, tdir), cwd=scr.kani_repo, timeout=h.timeout, mem_gb=h.mem_gb)
     if rc == 'timeout':
         res.status = 'timeout'; res.time = dt; res.log = out; res.detail = f'exceeded {h.timeout}s cap'
@@ -400,8 +432,9 @@ class Run:
         cov.update(self.extra)
         ev = {'property_id': self.prop, 'tier': self.tier, 'seed': self.seed, 'level': self.level, 'coverage': cov,
               'assumptions': self.assumptions, 'wall_s': round(wall, 1), 'violations': len(self.violations)}
-        os.makedirs(os.path.join(VERIF, 'evidence'), exist_ok=True)
-        with open(os.path.join(VERIF, 'evidence', f'{self.prop}.json'), 'w') as f:
+        evdir = os.environ.get('VERIF_EVIDENCE_DIR', os.path.join(VERIF, 'evidence'))
+        os.makedirs(evdir, exist_ok=True)
+        with open(os.path.join(evdir, f'{self.prop}.json'), 'w') as f:
             json.dump(ev, f, indent=1, default=str)
         for key, what in self.known:
             log(f'KNOWN-FINDING: property={self.prop} {what}')
@@ -422,7 +455,7 @@ class Run:
 
 def save_replay(prop, name, payload):
     """write a replay artefact under /verif/replays and return its path"""
-    d = os.path.join(VERIF, 'replays')
+    d = os.environ.get('VERIF_REPLAY_DIR', os.path.join(VERIF, 'replays'))
     os.makedirs(d, exist_ok=True)
     blob = json.dumps(payload, sort_keys=True, default=str)
     hid = hashlib.sha256(blob.encode()).hexdigest()[:10]
